@@ -50,14 +50,15 @@ def check(impl, scn):
             pending.append((key, t, out_of[tk[1]], size))
         elif tk[1] in in_of:
             dst = in_of[tk[1]]
-            # the most recent matching departure from another address
-            for i in range(len(pending) - 1, -1, -1):
-                k2, t0, src, sz = pending[i]
-                if k2 == key and src != dst and t0 <= t:
-                    lb = lower(src, dst, sz)
-                    n += 1
-                    # one tick of rounding per hop
-                    if Fraction(t - t0) + 8 < lb:
-                        fails.append(("route_lower_bound", "%s seq=%s (%d bytes) crossed %s -> %s in %d ns, latency + serialisation along the route sum to %s" % (key[0], key[1], sz, src, dst, t - t0, float(lb))))
-                    break
+            # candidates: every earlier departure of an identical-looking packet from another address (the key
+            # carries no destination: e.g. two SYN-ACKs of one listener to two clients look alike). The packet's
+            # own departure is among them, so the bound must hold for at least one candidate; reported against
+            # the most recent one
+            cands = [(t0, src, sz) for (k2, t0, src, sz) in pending if k2 == key and src != dst and t0 <= t]
+            if cands:
+                n += 1
+                # one tick of rounding per hop
+                if not any(Fraction(t - t0) + 8 >= lower(src, dst, sz) for (t0, src, sz) in cands):
+                    t0, src, sz = cands[-1]
+                    fails.append(("route_lower_bound", "%s seq=%s (%d bytes) crossed %s -> %s in %d ns, latency + serialisation along the route sum to %s" % (key[0], key[1], sz, src, dst, t - t0, float(lower(src, dst, sz)))))
     return fails
